@@ -58,7 +58,16 @@ func gatedByText(c px.ProgCase) string {
 // ---------------------------------------------------------------------------------------------
 // string literals of every class
 
-var runePool = []rune{'a', 'Z', '0', ' ', ' ', '"', '\'', '\\', '\n', '\t', '\r', '\b', 0, 1, 0x1b, 0x7f, 0x80, 0xa0, 'é', 'ß', '日', '𝄞', '$', '{', '}', '%', '/', '*', '#', 'n', 't', 'x', 'u'}
+var runePool = func() []rune {
+	pool := []rune{'a', 'Z', '0', ' ', ' ', '"', '\'', '\\', '\n', '\t', '\r', '\b', 0x7f, 0x80, 0x85, 0xa0, 0xad, 'é', 'ß', '日', '𝄞', '$', '{', '}', '%', '/', '*', '#', 'n', 't', 'x', 'u',
+		'a', 'f', 'v', 'b', 'r', 'e', 0x2028, 0x2029, 0xfeff, 0xfffd, 0x200b, 0x10ffff}
+	// every C0 control character: a printer that borrows an escaping routine from elsewhere may write escapes
+	// (\a, \f, \v, \e ...) that this language's lexer does not know
+	for r := rune(0); r < 0x20; r++ {
+		pool = append(pool, r)
+	}
+	return pool
+}()
 
 func drawString(rt *rapid.T, label string) string {
 	n := rapid.IntRange(0, 8).Draw(rt, label+"Len")
